@@ -538,7 +538,7 @@ def judge(ctx, label, traces):
     d = ctx.sub("judge-" + label)
     path = os.path.join(d, "traces.ndjson")
     tlc.write_ndjson(path, [{k: v for k, v in t.items() if k not in ("skip", "job")} for t in traces])
-    res = tlc.run_tlc("ModelCloneTrace", TRACE_CFG, d, env={"TRACES": path}, timeout=3000, workers=8)
+    res = tlc.run_tlc("ModelCloneTrace", TRACE_CFG, d, env={"TRACES": path}, timeout=3000, workers=max(2, free_cores(8)))
     if res.error or res.violated:
         raise MachineryError("ModelCloneTrace failed: %s %s" % (res.violated, res.error))
     expected = sum(len(t["ops"]) + 1 for t in traces)
@@ -607,7 +607,7 @@ def t1(ctx, label, pre, post, total, small, configs, full_universe=False, strict
         durt='"s", "e"' if full_universe else '"s"',
         pre=pre, post=post, total=total, small="TRUE" if small else "FALSE", configs=configs, strict="TRUE" if strict else "FALSE",
     )
-    res = tlc.run_tlc("MCModelClone", cfg, d, timeout=6000, workers=8, coverage=True)
+    res = tlc.run_tlc("MCModelClone", cfg, d, timeout=6000, workers=max(2, free_cores(8)), coverage=True)
     if res.error:
         raise MachineryError("T1 %s: %s" % (label, res.error))
     if not res.violated:
@@ -712,6 +712,14 @@ def random_history(rng, edits):
     return pre, post
 
 
+def free_cores(most):
+    try:
+        idle = (os.cpu_count() or 1) - os.getloadavg()[0]
+    except OSError:
+        idle = most
+    return max(1, min(most, int(idle)))
+
+
 def worker(job):
     import warnings
 
@@ -797,8 +805,15 @@ def run(ctx):
             else:
                 add(cls, h, "hand", rng.choice([1, 2]))
         universe()
-        with get_context("fork").Pool(14, maxtasksperchild=400) as pool:
-            traces = pool.map(worker, jobs, chunksize=16)
+        # on a busy machine worker processes cost more than they bring (measured here: 16 cores at load 90,
+        # a pool of 4..14 processes is 3-10 times slower than one process): as many as there are idle cores
+        nproc = free_cores(14)
+        ctx.cov["replay_processes"] = nproc
+        if nproc <= 2:
+            traces = [worker(j) for j in jobs]
+        else:
+            with get_context("fork").Pool(nproc) as pool:
+                traces = pool.map(worker, jobs, chunksize=32)
         skipped = {}
         for t in traces:
             if t["skip"]:
